@@ -364,4 +364,9 @@ def load_findings():
     if not os.path.exists(p):
         return []
     with open(p) as fh:
-        return json.load(fh).get("findings", [])
+        res = json.load(fh).get("findings", [])
+    extra = os.environ.get("VERIF_EXTRA_FINDINGS")  # development only: proposed entries not yet merged
+    if extra and os.path.exists(extra):
+        with open(extra) as fh:
+            res += json.load(fh).get("findings", [])
+    return res
